@@ -46,6 +46,7 @@ type frame struct {
 	defers   []*ssa.Defer
 	loopEntrySt map[int]*State
 	decVals map[int]Term
+	deferReach map[*ssa.Defer]Term
 }
 
 type unsupported struct{ msg string }
@@ -531,6 +532,10 @@ func (f *frame) execInstr(ins ssa.Instruction) {
 		f.runDefers()
 	case *ssa.Defer:
 		f.defers = append(f.defers, ins)
+		if f.deferReach == nil {
+			f.deferReach = map[*ssa.Defer]Term{}
+		}
+		f.deferReach[ins] = f.curReach
 	case *ssa.MakeMap:
 		r := u.alloc(f.cur, types.NewPointer(types.NewArray(types.Typ[types.Int], 0)))
 		f.vals[ins] = Term{r.S, u.tc.sortOf(ins.Type())}
@@ -686,6 +691,14 @@ func (f *frame) unop(ins *ssa.UnOp) Val {
 		}
 		v := u.define(f.key+"_"+ins.Name(), u.load(f.cur, p))
 		u.assumeLive(f.cur, v)
+		if g, ok := p.(*PtrPath); ok && g.Kind == "global" {
+			gname := g.Global.Pkg.Pkg.Name() + "." + g.Global.Name()
+			if inv, ok := u.eng.globalInv[gname]; ok && !u.eng.globalReassigned(g.Global) {
+				u.note("M5: package variable " + gname + " keeps its initial content (assumed invariant: " + inv.Src + ")")
+				env := &SpecEnv{u: u, vars: map[string]Val{g.Global.Name(): v}, st: f.cur, pkg: u.eng.globalInvPkg[gname], bound: map[string]Term{}, ctx: "globalinv " + gname}
+				u.assume(implies(f.curReach, env.evalBool(inv.X)))
+			}
+		}
 		return v
 	case token.NOT:
 		return not(f.term(ins.X))
@@ -737,6 +750,8 @@ func (u *Unit) assumeLive(st *State, v Term) {
 		u.assume(lt(sliceRef(v), u.nextRef(st)))
 	case KRef:
 		u.assume(and(le(Term{"0", sInt}, v), lt(v, u.nextRef(st))))
+	case KIface:
+		u.assume(Term{"(and (<= 0 (i-tag " + v.S + ")) (<= 0 (i-val " + v.S + ")) (< (i-val " + v.S + ") " + u.nextRef(st).S + "))", sBool})
 	}
 }
 
@@ -759,7 +774,14 @@ func (f *frame) binop(op token.Token, x, y Term, rs *Sort, ins ssa.Instruction) 
 		} else if x.T.K == KStr {
 			e = u.strEq(x, y)
 		} else if x.T.K == KIface && y.T.K == KIface {
-			e = eq(x, y)
+			switch {
+			case strings.HasPrefix(y.S, "(mk-iface 0 0 "):
+				e = Term{"(= (i-tag " + x.S + ") 0)", sBool}
+			case strings.HasPrefix(x.S, "(mk-iface 0 0 "):
+				e = Term{"(= (i-tag " + y.S + ") 0)", sBool}
+			default:
+				e = eq(x, y)
+			}
 		} else {
 			e = eq(x, y)
 		}
